@@ -40,8 +40,15 @@
         then `s^(n-1) > self`).
   Observation (not part of the property): `is_multiple_of(x, 0)` panics (remainder by zero) where
   num-integer's primitive impls return `x == 0`.
+
+  Sections 6–8 (added after the gap audit): the whole division family incl. `div_mod_floor`,
+  `is_multiple_of`, `divides` on `MIN / -1`; `MulAdd` / `abs_sub` in BOTH build profiles including the
+  overflow branch (debug: panic, release: wrap); `Signed::abs/signum/is_positive/is_negative` at value
+  level; num-integer's provided `Integer` methods (`div_ceil`, `next_multiple_of`, `prev_multiple_of`,
+  `gcd_lcm`, `inc`, `dec`) running on the crate's operators (Model/C18Extra.lean).
 -/
 import Bnum.Lemmas.NumTraits
+import Bnum.Lemmas.C18Extra
 namespace Bnum.C18
 open Bnum NumT
 
@@ -375,5 +382,228 @@ theorem i_signed_forwarders (w : Nat) (dbg : Bool) (a : List Nat) :
 
 theorem i_num_forwarder (w n : Nat) (src : List Nat) (radix : Nat) :
     I.fromStrRadix w n src radix = II.fromStrRadix w n src radix := rfl
+
+/-! ## 6. the rest of the division family: `divides`, `MIN / -1` -/
+
+/-- C18: `divides` (deprecated alias) decides divisibility like `is_multiple_of` -/
+theorem u_divides_spec {w n : Nat} (hw : 1 ≤ w) (hn : 1 ≤ n) {a b : List Nat} (ha : WF w n a)
+    (hb : WF w n b) (hb0 : U w b ≠ 0) :
+    U.divides w a b = .ok (decide (U w b ∣ U w a)) :=
+  U.isMultipleOf_spec hw hn ha hb hb0
+example : WF 8 2 [12, 1] ∧ WF 8 2 [4, 0] ∧ U 8 [4, 0] ≠ 0 := by decide
+example : U.divides 8 [12, 1] [4, 0] = .ok true ∧ U.divides 8 [13, 1] [4, 0] = .ok false := by decide
+
+theorem i_divides_spec {w n : Nat} {a b : List Nat} (hw : 2 ≤ w) (hn : 1 ≤ n) (ha : WF w n a)
+    (hb : WF w n b) (hb0 : S w b ≠ 0)
+    (hov : ¬ (S w a = -((M w n / 2 : Nat) : Int) ∧ S w b = -1)) (dbg : Bool) :
+    I.divides dbg w a b = .ok (decide (S w b ∣ S w a)) :=
+  I.isMultipleOf_spec hw hn ha hb hb0 hov dbg
+example : WF 8 1 [0xf4] ∧ WF 8 1 [0xfc] ∧ S 8 [0xfc] ≠ 0 ∧
+    ¬ (S 8 [0xf4] = -((M 8 1 / 2 : Nat) : Int) ∧ S 8 [0xfc] = -1) := by decide
+example : I.divides true 8 [0xf4] [0xfc] = .ok true := by decide
+
+/-- C18: a zero divisor panics in `divides` too -/
+theorem divides_by_zero {w n : Nat} {a b : List Nat} (hb : WF w n b) (dbg : Bool) :
+    (U w b = 0 → U.divides w a b = .panic) ∧ (S w b = 0 → I.divides dbg w a b = .panic) :=
+  ⟨fun h => (U.div_by_zero h).2.2.2.2, fun h => (I.div_by_zero hb h dbg).2.2.2.2⟩
+example : WF 8 2 [0, 0] ∧ U 8 [0, 0] = 0 ∧ S 8 [0, 0] = 0 := by decide
+
+/-- C18: `MIN / -1` panics in `div_mod_floor`, `is_multiple_of` and `divides` as well (together with
+    `i_min_neg_one`: in the WHOLE division family, in both build profiles) -/
+theorem i_min_neg_one_rest {w n : Nat} {a b : List Nat} (hw : 1 ≤ w) (hn : 1 ≤ n) (ha : WF w n a)
+    (hb : WF w n b) (hov : S w a = -((M w n / 2 : Nat) : Int) ∧ S w b = -1) (dbg : Bool) :
+    I.divModFloor dbg w a b = .panic ∧ I.isMultipleOf dbg w a b = .panic ∧
+    I.divides dbg w a b = .panic :=
+  I.min_neg_one_rest hw hn ha hb hov dbg
+example : I.divModFloor false 8 [0, 0x80] [0xff, 0xff] = .panic ∧
+    I.isMultipleOf false 8 [0, 0x80] [0xff, 0xff] = .panic := by decide
+
+/-! ## 7. `MulAdd`, `abs_sub` in both build profiles (overflow branch included); `Signed` at value level -/
+
+/-- C18: `mul_add` for `BUint`, complete: a debug build panics exactly when `x*a + c` does not fit;
+    every run that returns, returns `x*a + c` reduced mod `2^BITS` -/
+theorem u_mulAdd_full {w n : Nat} {x a c : List Nat} (hx : WF w n x) (ha : WF w n a)
+    (hc : WF w n c) (dbg : Bool) :
+    (U.mulAdd dbg w x a c = .panic ↔ dbg = true ∧ M w n ≤ U w x * U w a + U w c) ∧
+    (∀ r, U.mulAdd dbg w x a c = .ok r →
+      WF w n r ∧ U w r = (U w x * U w a + U w c) % M w n) :=
+  U.mulAdd_full hx ha hc dbg
+example : WF 8 1 [200] ∧ WF 8 1 [2] ∧ WF 8 1 [7] ∧ M 8 1 ≤ U 8 [200] * U 8 [2] + U 8 [7] := by decide
+example : U.mulAdd true 8 [200] [2] [7] = .panic ∧ U.mulAdd false 8 [200] [2] [7] = .ok [151] := by
+  decide
+
+/-- C18: `mul_add` for `BInt`, complete -/
+theorem i_mulAdd_full {w n : Nat} {x a c : List Nat} (hw : 2 ≤ w) (hn : 1 ≤ n) (hx : WF w n x)
+    (ha : WF w n a) (hc : WF w n c) (dbg : Bool) :
+    (I.mulAdd dbg w x a c = .panic ↔
+      dbg = true ∧ (¬ repS (M w n) (S w x * S w a) ∨ ¬ repS (M w n) (S w x * S w a + S w c))) ∧
+    (∀ r, I.mulAdd dbg w x a c = .ok r →
+      WF w n r ∧ S w r = wrapS (M w n) (S w x * S w a + S w c)) :=
+  I.mulAdd_full hw hn hx ha hc dbg
+-- 100 * 2 overflows i8 although 100 * 2 + (-100) would fit: debug panics, release wraps to 100
+example : WF 8 1 [100] ∧ WF 8 1 [2] ∧ WF 8 1 [0x9c] ∧ ¬ repS (M 8 1) (S 8 [100] * S 8 [2]) ∧
+    repS (M 8 1) (S 8 [100] * S 8 [2] + S 8 [0x9c]) := by decide
+example : I.mulAdd true 8 [100] [2] [0x9c] = .panic ∧ I.mulAdd false 8 [100] [2] [0x9c] = .ok [100] := by
+  decide
+
+/-- C18: `mul_add_assign` stores what `mul_add` returns -/
+theorem mulAddAssign_eq (w : Nat) (dbg : Bool) (x a c : List Nat) :
+    U.mulAddAssign dbg w x a c = U.mulAdd dbg w x a c ∧
+    I.mulAddAssign dbg w x a c = I.mulAdd dbg w x a c := ⟨rfl, rfl⟩
+
+/-- C18: `abs_sub`, complete: `0` for `self ≤ other`; otherwise the difference — a debug build panics
+    exactly when it is not representable, a release build wraps -/
+theorem i_absSub_full {w n : Nat} {a b : List Nat} (hw : 2 ≤ w) (hn : 1 ≤ n) (ha : WF w n a)
+    (hb : WF w n b) (dbg : Bool) :
+    (S w a ≤ S w b → I.absSub dbg w a b = .ok (zero n)) ∧
+    (S w b < S w a →
+      (I.absSub dbg w a b = .panic ↔ dbg = true ∧ ¬ repS (M w n) (S w a - S w b)) ∧
+      (∀ r, I.absSub dbg w a b = .ok r → WF w n r ∧ S w r = wrapS (M w n) (S w a - S w b))) :=
+  I.absSub_full hw hn ha hb dbg
+example : WF 8 1 [100] ∧ WF 8 1 [0x9c] ∧ S 8 [0x9c] < S 8 [100] ∧
+    ¬ repS (M 8 1) (S 8 [100] - S 8 [0x9c]) := by decide
+example : I.absSub true 8 [100] [0x9c] = .panic ∧ I.absSub false 8 [100] [0x9c] = .ok [200] := by decide
+
+/-- C18: `Signed::abs` is `|self|`; for `MIN` (whose magnitude does not fit) a debug build panics and a
+    release build returns `MIN` -/
+theorem i_abs_spec {w n : Nat} {a : List Nat} (hw : 2 ≤ w) (hn : 1 ≤ n) (ha : WF w n a) (dbg : Bool) :
+    (S w a ≠ -((M w n / 2 : Nat) : Int) →
+      ∃ r, I.abs dbg w a = .ok r ∧ WF w n r ∧ S w r = ((S w a).natAbs : Int)) ∧
+    (S w a = -((M w n / 2 : Nat) : Int) →
+      I.abs true w a = .panic ∧ I.abs false w a = .ok (iMin w n) ∧
+      S w (iMin w n) = -((M w n / 2 : Nat) : Int)) :=
+  I.abs_spec hw hn ha dbg
+example : WF 8 2 [0xfb, 0xff] ∧ S 8 [0xfb, 0xff] ≠ -((M 8 2 / 2 : Nat) : Int) ∧
+    I.abs true 8 [0xfb, 0xff] = .ok [5, 0] := by decide
+example : WF 8 2 [0, 0x80] ∧ S 8 [0, 0x80] = -((M 8 2 / 2 : Nat) : Int) ∧
+    I.abs true 8 [0, 0x80] = .panic ∧ I.abs false 8 [0, 0x80] = .ok [0, 0x80] := by decide
+
+/-- C18: `Signed::signum` is `-1 / 0 / 1`, `is_positive` is `> 0`, `is_negative` is `< 0` -/
+theorem i_signum_spec {w n : Nat} {a : List Nat} (hw : 2 ≤ w) (hn : 1 ≤ n) (ha : WF w n a) :
+    WF w n (I.signum w a) ∧
+    S w (I.signum w a) = if S w a < 0 then -1 else if S w a = 0 then 0 else 1 :=
+  I.signum_spec hw hn ha
+theorem i_isPositive_spec {w n : Nat} {a : List Nat} (hw : 1 ≤ w) (hn : 1 ≤ n) (ha : WF w n a) :
+    I.isPositive w a = decide (0 < S w a) := I.isPositive_spec hw hn ha
+theorem i_isNegative_spec {w n : Nat} {a : List Nat} (hw : 1 ≤ w) (hn : 1 ≤ n) (ha : WF w n a) :
+    I.isNegativeT w a = decide (S w a < 0) := I.isNegativeT_spec hw hn ha
+example : WF 8 2 [0, 0x80] ∧ I.signum 8 [0, 0x80] = [0xff, 0xff] ∧ I.isNegativeT 8 [0, 0x80] = true ∧
+    I.isPositive 8 [0, 1] = true ∧ I.isPositive 8 [0, 0] = false := by decide
+
+/-! ## 8. num-integer's provided `Integer` methods, run on the crate's operators
+(`div_ceil`, `next_multiple_of`, `prev_multiple_of`, `gcd_lcm`, `inc`, `dec`; Model/C18Extra.lean) -/
+
+/-- C18: `div_ceil` for `BUint` rounds the quotient up and never panics for a non-zero divisor -/
+theorem u_divCeil_spec {w n : Nat} {a b : List Nat} (hw : 1 ≤ w) (hn : 1 ≤ n) (ha : WF w n a)
+    (hb : WF w n b) (hb0 : U w b ≠ 0) (dbg : Bool) :
+    ∃ r, U.divCeil dbg w a b = .ok r ∧ WF w n r ∧
+      U w r = U w a / U w b + (if U w a % U w b = 0 then 0 else 1) :=
+  U.divCeil_spec hw hn ha hb hb0 dbg
+example : WF 8 1 [255] ∧ WF 8 1 [2] ∧ U 8 [2] ≠ 0 ∧ U.divCeil true 8 [255] [2] = .ok [128] := by decide
+
+/-- C18: `prev_multiple_of` for `BUint` -/
+theorem u_prevMultipleOf_spec {w n : Nat} {a b : List Nat} (hw : 1 ≤ w) (hn : 1 ≤ n)
+    (ha : WF w n a) (hb : WF w n b) (hb0 : U w b ≠ 0) (dbg : Bool) :
+    ∃ r, U.prevMultipleOf dbg w a b = .ok r ∧ WF w n r ∧ U w r = U w a - U w a % U w b :=
+  U.prevMultipleOf_spec hw hn ha hb hb0 dbg
+example : U.prevMultipleOf true 8 [255] [7] = .ok [252] := by decide
+
+/-- C18: `next_multiple_of` for `BUint`, complete (a multiple beyond `MAX`: debug panic, release wrap) -/
+theorem u_nextMultipleOf_full {w n : Nat} {a b : List Nat} (hw : 1 ≤ w) (hn : 1 ≤ n)
+    (ha : WF w n a) (hb : WF w n b) (hb0 : U w b ≠ 0) (dbg : Bool) :
+    let t := U w a + (if U w a % U w b = 0 then 0 else U w b - U w a % U w b)
+    (U.nextMultipleOf dbg w a b = .panic ↔ dbg = true ∧ M w n ≤ t) ∧
+    (∀ r, U.nextMultipleOf dbg w a b = .ok r → WF w n r ∧ U w r = t % M w n) :=
+  U.nextMultipleOf_full hw hn ha hb hb0 dbg
+example : WF 8 1 [255] ∧ WF 8 1 [7] ∧ U 8 [7] ≠ 0 ∧ U.nextMultipleOf true 8 [255] [7] = .panic ∧
+    U.nextMultipleOf false 8 [255] [7] = .ok [3] ∧ U.nextMultipleOf true 8 [250] [7] = .ok [252] := by
+  decide
+
+/-- C18: `gcd_lcm` for `BUint` -/
+theorem u_gcdLcm_spec {w n : Nat} {a b : List Nat} (hw : 1 ≤ w) (hn : 1 ≤ n) (ha : WF w n a)
+    (hb : WF w n b) (hrep : Nat.lcm (U w a) (U w b) < M w n) (dbg : Bool) :
+    ∃ g l, U.gcdLcm dbg w a b = .ok (g, l) ∧ WF w n g ∧ WF w n l ∧
+      U w g = Nat.gcd (U w a) (U w b) ∧ U w l = Nat.lcm (U w a) (U w b) :=
+  U.gcdLcm_spec hw hn ha hb hrep dbg
+example : Nat.lcm (U 8 [12, 0]) (U 8 [18, 0]) < M 8 2 ∧
+    U.gcdLcm true 8 [12, 0] [18, 0] = .ok ([6, 0], [36, 0]) := by decide
+
+/-- C18: `inc` / `dec` for `BUint`, complete -/
+theorem u_inc_dec_full {w n : Nat} {a : List Nat} (hw : 1 ≤ w) (hn : 1 ≤ n) (ha : WF w n a)
+    (dbg : Bool) :
+    ((U.inc dbg w a = .panic ↔ dbg = true ∧ M w n ≤ U w a + 1) ∧
+     (∀ r, U.inc dbg w a = .ok r → WF w n r ∧ U w r = (U w a + 1) % M w n)) ∧
+    ((U.dec dbg w a = .panic ↔ dbg = true ∧ U w a = 0) ∧
+     (∀ r, U.dec dbg w a = .ok r →
+       WF w n r ∧ (U w r : Int) = wrapU (M w n) ((U w a : Int) - 1))) :=
+  ⟨U.inc_full hw hn ha dbg, U.dec_full hw hn ha dbg⟩
+example : U.inc true 8 [255, 255] = .panic ∧ U.inc false 8 [255, 255] = .ok [0, 0] ∧
+    U.dec false 8 [0, 0] = .ok [255, 255] ∧ U.dec true 8 [0, 1] = .ok [255, 0] := by decide
+
+section provided_signed
+variable {w n : Nat} {a b : List Nat} (hw : 2 ≤ w) (hn : 1 ≤ n) (ha : WF w n a) (hb : WF w n b)
+  (hb0 : S w b ≠ 0) (hov : ¬ (S w a = -((M w n / 2 : Nat) : Int) ∧ S w b = -1)) (dbg : Bool)
+include hw hn ha hb hb0 hov
+
+/-- C18: `div_ceil` for `BInt`: the floor quotient plus one when the division is inexact, i.e. the
+    quotient rounded toward `+∞`; no panic, the `+ 1` never overflows -/
+theorem i_divCeil_spec :
+    ∃ r, I.divCeil dbg w a b = .ok r ∧ WF w n r ∧
+      S w r = (S w a).fdiv (S w b) + (if (S w a).fmod (S w b) = 0 then 0 else 1) :=
+  I.divCeil_spec hw hn ha hb hb0 hov dbg
+
+/-- C18: `prev_multiple_of` for `BInt`, complete -/
+theorem i_prevMultipleOf_full :
+    let t := S w a - (S w a).fmod (S w b)
+    (I.prevMultipleOf dbg w a b = .panic ↔ dbg = true ∧ ¬ repS (M w n) t) ∧
+    (∀ r, I.prevMultipleOf dbg w a b = .ok r → WF w n r ∧ S w r = wrapS (M w n) t) :=
+  I.prevMultipleOf_full hw hn ha hb hb0 hov dbg
+
+/-- C18: `next_multiple_of` for `BInt`, complete -/
+theorem i_nextMultipleOf_full :
+    let m := (S w a).fmod (S w b)
+    let t := S w a + (if m = 0 then 0 else S w b - m)
+    (I.nextMultipleOf dbg w a b = .panic ↔ dbg = true ∧ ¬ repS (M w n) t) ∧
+    (∀ r, I.nextMultipleOf dbg w a b = .ok r → WF w n r ∧ S w r = wrapS (M w n) t) :=
+  I.nextMultipleOf_full hw hn ha hb hb0 hov dbg
+end provided_signed
+-- -23 and 8 on 8 bits (num-integer's documentation examples), and the overflowing cases at the limits
+example : WF 8 1 [0xe9] ∧ WF 8 1 [8] ∧ S 8 [0xe9] = -23 ∧ S 8 [8] ≠ 0 ∧
+    ¬ (S 8 [0xe9] = -((M 8 1 / 2 : Nat) : Int) ∧ S 8 [8] = -1) := by decide
+example : I.divCeil true 8 [0xe9] [8] = .ok [0xfe] ∧ I.nextMultipleOf true 8 [0xe9] [8] = .ok [0xf0] ∧
+    I.prevMultipleOf true 8 [0xe9] [8] = .ok [0xe8] := by decide
+example : I.nextMultipleOf true 8 [126] [5] = .panic ∧ I.nextMultipleOf false 8 [126] [5] = .ok [130] ∧
+    I.prevMultipleOf true 8 [0x81] [5] = .panic := by decide
+
+/-- C18: `gcd_lcm` for `BInt` -/
+theorem i_gcdLcm_spec {w n : Nat} {a b : List Nat} (hw : 2 ≤ w) (hn : 1 ≤ n) (ha : WF w n a)
+    (hb : WF w n b) (hrepg : 2 * Nat.gcd (S w a).natAbs (S w b).natAbs < M w n)
+    (hrepl : 2 * Nat.lcm (S w a).natAbs (S w b).natAbs < M w n) (dbg : Bool) :
+    ∃ g l, I.gcdLcm dbg w a b = .ok (g, l) ∧ WF w n g ∧ WF w n l ∧
+      S w g = (Nat.gcd (S w a).natAbs (S w b).natAbs : Int) ∧
+      S w l = (Nat.lcm (S w a).natAbs (S w b).natAbs : Int) :=
+  I.gcdLcm_spec hw hn ha hb hrepg hrepl dbg
+example : I.gcdLcm true 8 [0xf4] [18] = .ok ([6], [36]) := by decide
+
+/-- C18: `inc` / `dec` for `BInt`, complete -/
+theorem i_inc_dec_full {w n : Nat} {a : List Nat} (hw : 2 ≤ w) (hn : 1 ≤ n) (ha : WF w n a)
+    (dbg : Bool) :
+    ((I.inc dbg w a = .panic ↔ dbg = true ∧ ¬ repS (M w n) (S w a + 1)) ∧
+     (∀ r, I.inc dbg w a = .ok r → WF w n r ∧ S w r = wrapS (M w n) (S w a + 1))) ∧
+    ((I.dec dbg w a = .panic ↔ dbg = true ∧ ¬ repS (M w n) (S w a - 1)) ∧
+     (∀ r, I.dec dbg w a = .ok r → WF w n r ∧ S w r = wrapS (M w n) (S w a - 1))) :=
+  ⟨I.inc_full hw hn ha dbg, I.dec_full hw hn ha dbg⟩
+example : I.inc true 8 [0xff, 0x7f] = .panic ∧ I.inc false 8 [0xff, 0x7f] = .ok [0, 0x80] ∧
+    I.dec true 8 [0, 0x80] = .panic := by decide
+
+/-- C18: the remaining forwarders (by-reference `SaturatingAdd/Sub/Mul`, `PrimInt::pow`) equal the
+    inherent methods -/
+theorem extra_forwarders (w : Nat) (dbg : Bool) (a b : List Nat) (k : Nat) :
+    U.saturatingAddRef w a b = UI.saturatingAdd w a b ∧ U.saturatingSubRef w a b = UI.saturatingSub w a b ∧
+    U.saturatingMulRef w a b = UI.saturatingMul w a b ∧ U.primIntPow w dbg a k = UI.pow w dbg a k ∧
+    I.saturatingAddRef w a b = II.saturatingAdd w a b ∧ I.saturatingSubRef w a b = II.saturatingSub w a b ∧
+    I.saturatingMulRef w a b = II.saturatingMul w a b ∧ I.primIntPow w dbg a k = II.pow w dbg a k ∧
+    U.divides w a b = U.isMultipleOf w a b ∧ I.divides dbg w a b = I.isMultipleOf dbg w a b :=
+  ⟨rfl, rfl, rfl, rfl, rfl, rfl, rfl, rfl, rfl, rfl⟩
 
 end Bnum.C18
